@@ -283,7 +283,7 @@ def run(scn):
     flux = np.asarray(_arr(model._outputs.water_flux), dtype=float)
     growth = np.asarray(_arr(model._outputs.crop_growth), dtype=float)
     storage = np.asarray(_arr(model._outputs.water_storage), dtype=float)
-    crop = model.crop
+    crop = getattr(model, "_crop", None) or model.crop   # the model works on a private copy of the crop (calendar fields are computed there)
     # ---- (a) direct trace invariants -----------------------------------------------------------------
     prev = None
     for i, r in enumerate(trace):
